@@ -215,6 +215,7 @@ class Analysis:
         self.prog = Program(root, extra)
         self.res = Resolver(self.prog)
         self._fa: Dict[str, FuncAnalysis] = {}
+        self.roots: Set[str] = set()
         self._trans: Optional[Dict[str, Set[str]]] = None
         self._callees: Optional[Dict[str, Set[str]]] = None
         self.stats = {"functions_analysed": 0}
@@ -222,10 +223,28 @@ class Analysis:
     # --------------------------------------------------------------- access
     def fa(self, short_or_f) -> FuncAnalysis:
         f = short_or_f if isinstance(short_or_f, FuncInfo) else self.prog.func(short_or_f)
+        if not isinstance(short_or_f, FuncInfo):
+            self.roots.add(f.qual)      # functions a rule asked for by name: the property's own territory
         if f.qual not in self._fa:
             self._fa[f.qual] = FuncAnalysis(self, f)
             self.stats["functions_analysed"] += 1
         return self._fa[f.qual]
+
+    def scope(self):
+        """(functions, class names) the rules of this run depend on: the
+        functions the rules named, the classes owning those functions and the classes whose attributes they touch."""
+        funcs = set(self.roots)     # direct: the over-approximate call graph (CHA, by-name) reaches most of the package from anywhere
+        classes = set()
+        for q in funcs:
+            g = self.prog.functions.get(q)
+            if g is None or g.module.name.startswith("_fixture"):
+                continue
+            if g.cls is not None:
+                classes.add(g.cls.name)
+            for e in self.fa(g).effects():
+                if e.owner and e.owner != "?":
+                    classes.add(e.owner.split(":")[-1])
+        return funcs, classes
 
     def functions(self, include_fixtures: bool = False) -> List[FuncInfo]:
         return [f for f in self.prog.functions.values() if include_fixtures or not f.module.name.startswith("_fixture")]
